@@ -60,7 +60,11 @@ class PackageLoader(BaseLoader):
 
         # Add suffix self.ext if template name does not have a suffix.
         if not template_path.suffix:
-            template_path = template_path.with_suffix(self.ext)
+            try:
+                template_path = template_path.with_suffix(self.ext)
+            except ValueError as err:
+                # An empty name, like "" or ".".
+                raise TemplateNotFoundError(template_name) from err
 
         for path in self.paths:
             source_path = path.joinpath(str(template_path))
